@@ -1071,11 +1071,18 @@ func TestDebugDialerRejections(t *testing.T) {
 			head += "Connection: close\r\n"
 		}
 		wire := []byte(head + "\r\n" + sent)
+		seen := map[bool]string{}
 		run := func(debug bool, onResp *[]byte) (err error, panicked interface{}) {
 			rand.Seed(c.Seed)
 			peer := &serverPeer{chunks: chunks}
 			peer.serve = func(req []byte) []byte { return wire }
 			d := c.dialer()
+			// the caller's own look at the refusal: status, reason and the body as far as it arrived
+			d.OnStatusError = func(status int, reason []byte, resp io.Reader) {
+				r := string(reason)
+				body, _ := io.ReadAll(io.LimitReader(resp, 1<<16))
+				seen[debug] = fmt.Sprintf("%d %q body=%q", status, r, body)
+			}
 			d.NetDial = func(ctx context.Context, network, addr string) (net.Conn, error) { return fakeConn{peer}, nil }
 			defer func() { panicked = recover() }()
 			if debug {
@@ -1105,6 +1112,12 @@ func TestDebugDialerRejections(t *testing.T) {
 		}
 		if !bytes.Equal(got, wire) {
 			t.Fatalf("OnResponse reported\n%q\nthe server sent\n%q", got, wire)
+		}
+		if seen[false] == "" {
+			t.Fatalf("harness: the plain dialer did not call OnStatusError for %q", wire)
+		}
+		if seen[true] != seen[false] {
+			t.Fatalf("Dialer.OnStatusError saw a different refusal through DebugDialer:\n  %s\nplain dialer:\n  %s", seen[true], seen[false])
 		}
 	})
 }
